@@ -368,6 +368,20 @@ def _sext(e, w, to):
 
 
 MAX_WIDTH = 1 << 14
+# When set (bits), symbolic x symbolic products and reductions modulo a non-power-of-two whose operands
+# are wider than this are replaced by uninterpreted functions (MULW / MODW / DIVW) with only the range
+# fact 0 <= x mod m < m.  Harnesses that compare *framing* (what is hashed / multiplied / reduced, in
+# which order) enable it; the arithmetic itself is then outside the claim (stated per harness).
+ABSTRACT_WIDE = [None]
+
+
+def _abstract(op, a, aw, b, bw, rw, range_m=None):
+    c = ctx()
+    f = c.uf("%s_%d_%d" % (op, aw, bw), z3.BitVecSort(aw), z3.BitVecSort(bw), z3.BitVecSort(rw))
+    r = f(a, b)
+    if range_m is not None:
+        c.axiom((op, r.get_id()), z3.ULT(r, range_m))
+    return r
 
 
 class SymBool(object):
@@ -567,6 +581,12 @@ class SymInt(object):
             return NotImplemented
         oe, ow, onn = c
         w = self.w + ow
+        t = ABSTRACT_WIDE[0]
+        if t is not None and w > t and not z3.is_bv_value(oe) and self.nn and onn:
+            a, b = (self.e, self.w), (oe, ow)
+            if a[0].get_id() > b[0].get_id():      # commutative: canonical argument order
+                a, b = b, a
+            return SymInt.make(_abstract("MULW", a[0], a[1], b[0], b[1], w), w, True)
         return SymInt.make(_sext(self.e, self.w, w) * _sext(oe, ow, w), w, self.nn and onn)
     __rmul__ = __mul__
 
@@ -692,8 +712,18 @@ class SymInt(object):
                 return self & (d - 1)
             if self.nn:
                 w = max(self.w, ow)
+                t = ABSTRACT_WIDE[0]
+                if t is not None and w > t:
+                    r = _abstract("MODW", self.e, self.w, oe, ow, ow, range_m=oe)
+                    return SymInt.make(r, ow, nn=True)
                 r = z3.URem(_sext(self.e, self.w, w), _sext(oe, ow, w))
                 return SymInt.make(z3.Extract(ow - 1, 0, r), ow, nn=True)
+        t = ABSTRACT_WIDE[0]
+        if t is not None and max(self.w, ow) > t and self.nn and onn:
+            if ctx().branch(oe == 0):
+                raise ZeroDivisionError("integer division or modulo by zero")
+            r = _abstract("MODW", self.e, self.w, oe, ow, ow, range_m=oe)
+            return SymInt.make(r, ow, nn=True)
         q, r, w = self._divmod(self.e, self.w, oe, ow)
         return SymInt.make(r, w, onn)
 
@@ -861,6 +891,11 @@ def int_to_byte(v, what="byte"):
         if v.w >= 8:
             return _simp_byte(z3.Extract(7, 0, v.e))
         return _simp_byte(z3.ZeroExt(8 - v.w, v.e)) if v.nn else _simp_byte(z3.SignExt(8 - v.w, v.e))
+    inner = getattr(v, '_value', None)      # Crypto.Math IntegerNative
+    if isinstance(inner, (int, SymInt)):
+        return int_to_byte(inner, what)
+    if hasattr(v, '__index__'):
+        return int_to_byte(operator.index(v), what)
     raise TypeError("an integer is required for a %s, got %r" % (what, type(v)))
 
 
